@@ -339,9 +339,54 @@ def r4_regeneration_source(repo=None):
     return r
 
 
+def r5_index_passes_agree(repo=None):
+    r = Rule("C06.R5", "the row-counting pass and the row-filling pass of the block index use the same predicates (sibling)")
+    tu = cfront.lib(repo)
+    fn = tu.fn("digital_rf_create_rf_data_index")
+    loops = [n for n in fn.find("ForStmt")]
+    if len(loops) != 2:
+        raise AnalysisError("digital_rf_create_rf_data_index: expected 2 loops over the block description, found %d" % len(loops))
+
+    def conds_guarding(loop, pred):
+        out = []
+        for n in loop.walk():
+            if pred(n):
+                cs = []
+                for a in n.ancestors():
+                    if a is loop:
+                        break
+                    if a.kind == "IfStmt":
+                        inthen = a.children[1].begin <= n.begin <= a.children[1].end
+                        cs.append(("" if inthen else "!") + re.sub(r"\s", "", a.children[0].nsrc))
+                out.append(tuple(reversed(cs)))
+        return sorted(out)
+
+    count = conds_guarding(loops[0], lambda n: n.kind == "UnaryOperator" and n.opcode == "++" and n.children[0].path() == "row_count")
+    fill = conds_guarding(loops[1], lambda n: n.kind == "UnaryOperator" and n.opcode == "++" and n.children[0].path() == "rows_written")
+    # normalise the first-row condition: `i == 0 && (X)` in the fill pass vs `else-of (i > 0)` + X in the count pass
+    def canon(cs):
+        out = []
+        for c in cs:
+            c2 = tuple(x.replace("i==0&&(", "!i>0&&(").replace("!i>0&&(", "FIRST&&(") for x in c)
+            c2 = tuple("FIRST" if x in ("!i>0",) else x for x in c2)
+            flat = "&&".join(c2).replace("FIRST&&(", "FIRST&&").rstrip(")") if any("FIRST" in x for x in c2) else "&&".join(c2)
+            out.append(flat.replace("(", "").replace(")", ""))
+        return sorted(out)
+    a, b = canon(count), canon(fill)
+    if len(count) == 2 and len(fill) == 2 and a == b:
+        r.ok("%s:%s/%s digital_rf_create_rf_data_index" % (LIB, loops[0].line, loops[1].line),
+             "both passes add a row under the same two predicates: %s" % a)
+    else:
+        r.violation(LIB, fn.name, "count pass %s vs fill pass %s" % (a, b), "the number of index rows allocated and the number of rows "
+                    "filled are decided by different predicates: rows are missing, uninitialised or written past the allocation",
+                    line=loops[1].line)
+    r.guard(1)
+    return r
+
+
 def rules(repo=None):
     return [lambda: r1_attribute_tables(repo), lambda: r2_write_once(repo), lambda: r3_metadata_in_every_file(repo),
-            lambda: r4_regeneration_source(repo)]
+            lambda: r4_regeneration_source(repo), lambda: r5_index_passes_agree(repo)]
 
 
 EXPLANATION = (
@@ -352,6 +397,7 @@ EXPLANATION = (
     "rejecting missing/mismatch branches, regeneration copies exactly the properties set. R2: session constants are stored "
     "only in the constructor; present_seq++ dominates the data-file create once per call. R3: every successful file creation "
     "passes digital_rf_write_metadata; the index is written after the data. R4: regeneration opens for writing only when the "
-    "file does not exist and its glob is included in the finalized-file grammar. Does NOT decide index row contents.")
+    "file does not exist and its glob matches every finalized RF file name and no tmp. name. R5: the counting pass and the filling "
+    "pass of digital_rf_create_rf_data_index add a row under the same predicates. Does NOT decide index row contents.")
 ASSUMPTIONS = ["HDF5 attribute API semantics", "clang 14 AST and CPython ast are faithful"]
 FILES = [C_LIB, "python/digital_rf/digital_rf_hdf5.py", "python/digital_rf/list_drf.py"]
